@@ -3,6 +3,7 @@
 //! A state is the history reaching it (live caches do not clone): every transition rebuilds a fresh
 //! cache and replays. See DESIGN.md §2.2.
 
+use std::time::Instant;
 use std::collections::HashSet;
 
 use serde_json::{json, Value};
@@ -144,8 +145,9 @@ fn finish_run(job: &SeqJob, ops: &[Op], end: RunEnd, d: Option<Driver>, res: &mu
 }
 
 /// Pass 1: all sequences of every length 1..=depth1. `shard = (i, n)` selects sequences by index.
-pub fn pass1(job: &SeqJob, shard: (usize, usize), counter: &mut u64, res: &mut ShardResult) -> bool {
+pub fn pass1(job: &SeqJob, shard: (usize, usize), counter: &mut u64, res: &mut ShardResult, deadline: Instant) -> bool {
     let a = job.alphabet.len();
+    let mut own = 0u64;
     for len in 1..=job.depth1 {
         let mut idx = vec![0usize; len];
         'outer: loop {
@@ -157,6 +159,12 @@ pub fn pass1(job: &SeqJob, shard: (usize, usize), counter: &mut u64, res: &mut S
                 || len <= job.resize_any_depth
                 || (resizes == 1 && matches!(ops[len - 1], Op::Resize { .. }) && len <= job.resize_last_depth);
             if mine && allowed {
+                own += 1;
+                if own % 64 == 0 && Instant::now() >= deadline {
+                    res.capped = true;
+                    res.notes.insert("wall cap reached inside pass 1 of a job".into());
+                    return false;
+                }
                 let (end, d) = run_once(job, &ops, res);
                 res.add("pass1_sequences", 1);
                 if res.samples.len() < 3 && matches!(end, RunEnd::Ok) && len == job.depth1 {
@@ -189,7 +197,7 @@ pub fn pass1(job: &SeqJob, shard: (usize, usize), counter: &mut u64, res: &mut S
 }
 
 /// Pass 2: breadth-first search with deduplication on the reference state.
-pub fn pass2(job: &SeqJob, res: &mut ShardResult) -> bool {
+pub fn pass2(job: &SeqJob, res: &mut ShardResult, deadline: Instant) -> bool {
     if job.depth2 == 0 {
         return true;
     }
@@ -211,6 +219,13 @@ pub fn pass2(job: &SeqJob, res: &mut ShardResult) -> bool {
     for depth in 1..=job.depth2 {
         let mut next: Vec<Vec<Op>> = vec![];
         for hist in frontier.iter() {
+            if Instant::now() >= deadline {
+                res.capped = true;
+                res.notes.insert(format!("wall cap reached inside pass 2 of a job at depth {depth}"));
+                res.add("pass2_states", seen.len() as u64);
+                res.max("pass2_depth", depth_done as u64);
+                return false;
+            }
             for op in job.alphabet.iter() {
                 let mut ops = hist.clone();
                 ops.push(*op);
